@@ -6,6 +6,7 @@
    was confirmed and repaired; see known_findings.json.) Everything else in C02 is decided by the
    sanitizer-instrumented runs over every entry point. *)
 From GV Require Import Base.Str Sym.Op Sym.Triplet Sym.Group Sym.HallSafe Readers.Pir Readers.PirProofs Readers.TripletTotal.
+From GV Require Readers.OperExpr Readers.OperExprProofs.
 Local Open Scope Z_scope.
 
 Theorem C02_pir_total_in_bounds : forall s,
@@ -32,3 +33,23 @@ Proof.
 Qed.
 Print Assumptions C02_hall_symbol_in_bounds.
 
+
+(* parse_operation_expr (src/mmcif.cpp; _pdbx_struct_assembly_gen.oper_expression, Readers/OperExpr.v): for EVERY byte
+   string the loop stops (the fuel of the model, length + 1, is never used up), no substring is requested beyond the end
+   of the text (std::out_of_range), and the operation names returned number at most a million plus the length of the text:
+   the repaired code refuses wider ranges. *)
+Theorem C02_operation_expr_total : forall expr,
+  match OperExpr.parse_operation_expr expr with
+  | OperExpr.Done r => 0 <= OperExpr.total r <= OperExpr.cap + 2 + Z.of_nat (length expr)
+  | OperExpr.Throw => True
+  | OperExpr.OutOfFuel | OperExpr.OutOfRange => False
+  end.
+Proof. exact OperExprProofs.parse_operation_expr_total. Qed.
+Print Assumptions C02_operation_expr_total.
+
+(* before the repair there was no bound: the 12-byte text 1-2000000000 stood for two billion names *)
+Theorem C02_operation_expr_nocap_refuted :
+  OperExprProofs.loop_nocap_first [49; 45; 50; 48; 48; 48; 48; 48; 48; 48; 48; 48] = 2000000000 /\
+  OperExpr.parse_operation_expr [49; 45; 50; 48; 48; 48; 48; 48; 48; 48; 48; 48] = OperExpr.Throw.
+Proof. exact OperExprProofs.nocap_witness. Qed.
+Print Assumptions C02_operation_expr_nocap_refuted.
